@@ -247,6 +247,8 @@ def _expand_name(f: Func, e):
 EXACT_LOOKALIKES = {
     'sizes': 'it is derived from the two parameter collections only through len() - equal SIZES do not mean equal name sets '
              '(same number of parameters under different names)',
+    'inclusion': 'one-way inclusion (subset / superset of the names or of the items) is not equality: a range without parameters '
+                 'is included in every media type',
     'other': 'it does not separate "same parameter names" from "different parameter names"',
 }
 
@@ -258,16 +260,25 @@ class _OutOfModel(Exception):
 
 
 class _PDict:
-    """the parameter mapping of one side (names only; values are not modelled)"""
-    __slots__ = ('names',)
+    """the parameter mapping of one side: its names and (for the dict views that read them) one value per name"""
+    __slots__ = ('names', 'map')
 
-    def __init__(self, names):
+    def __init__(self, names, values=None):
         self.names = frozenset(names)
+        self.map = {n: (values or {}).get(n, 1) for n in self.names}
 
 
 class _PView(_PDict):
     """dict.keys() of a parameter mapping: set-like for operators, no set methods"""
     __slots__ = ()
+
+
+class _PItems:
+    """dict.items() of a parameter mapping: a set-like of (name, value) pairs - operators and isdisjoint(), no set methods"""
+    __slots__ = ('pairs',)
+
+    def __init__(self, mapping):
+        self.pairs = frozenset(mapping.items())
 
 
 _SET_OPS = {ast.BitXor: frozenset.__xor__, ast.BitAnd: frozenset.__and__, ast.BitOr: frozenset.__or__, ast.Sub: frozenset.__sub__}
@@ -287,12 +298,20 @@ class _ParamModel:
     match_score (`self.params`, `<other>.params`).
 
     language: numeric constants; `X.params`; frozenset()/set()/dict()/.keys()/
-    .copy() of a collection; set operators ^ & | - and the corresponding set
-    methods; issubset/issuperset/isdisjoint; len()/bool()/int()/abs(); + and -
-    on numbers; unary not/-; and/or (Python value semantics); comparisons
-    between two numbers or between two set-likes; conditional expressions;
-    locals bound once at the top level of the function, or bound to values in
-    the branches of one top-level if-statement (optionally after a default)."""
+    .items()/.copy() of a collection; set operators ^ & | - and the
+    corresponding set methods; issubset/issuperset/isdisjoint; len()/bool()/
+    int()/abs(); + and - on numbers; unary not/-; and/or (Python value
+    semantics); comparisons between two numbers, between two set-likes
+    (frozensets, keys views, items views) or `==`/`!=` of the two mappings
+    themselves; conditional expressions; locals bound once at the top level of
+    the function, or bound to values in the branches of one top-level
+    if-statement (optionally after a default).
+
+    Values: an items view / a comparison of the mappings reads the parameter
+    VALUES too (`touched`); the caller then evaluates on every assignment of
+    two values to the names in which a name present on both sides carries the
+    SAME value (a pair with a value conflict never reaches a real score: part
+    (d) - a parameter value mismatch yields the sentinel)."""
 
     def __init__(self, roles: _Roles, other: str):
         self.roles = roles
@@ -302,15 +321,18 @@ class _ParamModel:
     # -- values
     @staticmethod
     def _names(v) -> frozenset:
+        """the elements of a collection: names, or (name, value) pairs of an items view"""
         if isinstance(v, _PDict):
             return v.names
+        if isinstance(v, _PItems):
+            return v.pairs
         if isinstance(v, frozenset):
             return v
         raise _OutOfModel('not a collection')
 
     @staticmethod
     def _setlike(v) -> bool:
-        return isinstance(v, (frozenset, _PView))
+        return isinstance(v, (frozenset, _PView, _PItems))
 
     def _truth(self, v) -> bool:
         if _is_number(v):
@@ -318,8 +340,10 @@ class _ParamModel:
         return bool(self._names(v))
 
     # -- expressions
-    def value(self, e, A: frozenset, B: frozenset):
+    def value(self, e, A: frozenset, B: frozenset, values_a=None, values_b=None):
         self._A, self._B, self._busy = A, B, set()
+        self._VA, self._VB = values_a, values_b
+        self.touched = False                   # did the evaluation read parameter VALUES?
         v = self._ev(e, 0)
         if not _is_number(v):
             raise _OutOfModel('%s is not a number' % short(e, 40))
@@ -336,7 +360,7 @@ class _ParamModel:
             raise _OutOfModel('constant %r' % (e.value,))
         if isinstance(e, ast.Attribute):
             if e.attr == 'params' and isinstance(e.value, ast.Name) and e.value.id in ('self', self.other):
-                return _PDict(self._A if e.value.id == 'self' else self._B)
+                return _PDict(self._A, self._VA) if e.value.id == 'self' else _PDict(self._B, self._VB)
             raise _OutOfModel('attribute %s' % short(e, 40))
         if isinstance(e, ast.Name):
             return self._name(e, d)
@@ -374,6 +398,9 @@ class _ParamModel:
                     res = fn(left, right)
                 elif self._setlike(left) and self._setlike(right):
                     res = fn(self._names(left), self._names(right))
+                elif type(left) is _PDict and type(right) is _PDict and isinstance(op, (ast.Eq, ast.NotEq)):
+                    self.touched = True
+                    res = fn(left.map, right.map)              # dict == dict: names AND values
                 else:
                     raise _OutOfModel('comparison of unlike operands in %s' % short(e, 40))
                 if not res:
@@ -415,10 +442,13 @@ class _ParamModel:
             if not e.args:
                 if m == 'keys' and type(recv) is _PDict:
                     return _PView(recv.names)
+                if m == 'items' and type(recv) is _PDict:
+                    self.touched = True
+                    return _PItems(recv.map)
                 if m == 'copy' and (type(recv) is _PDict or isinstance(recv, frozenset)):
                     return recv
                 raise _OutOfModel('call %s' % short(e, 40))
-            if len(e.args) == 1 and m in _SET_METHODS and (isinstance(recv, frozenset) or (m == 'isdisjoint' and type(recv) is _PView)):
+            if len(e.args) == 1 and m in _SET_METHODS and (isinstance(recv, frozenset) or (m == 'isdisjoint' and type(recv) in (_PView, _PItems))):
                 arg = self._ev(e.args[0], d)
                 if _is_number(arg):
                     raise _OutOfModel('call %s' % short(e, 40))
@@ -521,6 +551,14 @@ def _sizes_only(f: Func, other: str, e, depth=0) -> bool:
             return True
         return all(v is not None and _sizes_only(f, other, v, depth + 1) for _, v in binds)
     return all(_sizes_only(f, other, c, depth + 1) for c in ast.iter_child_nodes(e) if isinstance(c, ast.expr))
+
+
+def _one_way_inclusion(v) -> bool:
+    """the component takes its equal-sets value exactly on the pairs A <= B (or exactly on the pairs A >= B)"""
+    if len(v.eq) != 1:
+        return False
+    hi = v.eq[0]
+    return any(all((r[2] == hi) == rel(r[0], r[1]) for r in v.rows) for rel in (frozenset.issubset, frozenset.issuperset))
 
 
 class _ExactVerdict:
@@ -1316,7 +1354,7 @@ def r1_score_order(run):
                 feasible += [c for c in f2 if c not in feasible]
                 direct.update(d2)
                 unreadable += u2
-            rows = []
+            rows, n_pairs = [], 0
             for A in subsets:
                 for B in subsets:
                     if (not A, not B) not in feasible:
@@ -1325,10 +1363,27 @@ def r1_score_order(run):
                         continue
                     if direct.get('and') and (direct['and'] == 'empty') != (not A & B):
                         continue
-                    rows.append((A, B, model.value(e, A, B)))
+                    n_pairs += 1
+                    rows += values_on(e, A, B)
             verdicts[key] = v = _ExactVerdict(rows, unreadable)
-            v.whole = v if len(rows) == len(subsets) ** 2 else _ExactVerdict([(A, B, model.value(e, A, B)) for A in subsets for B in subsets], [])
+            v.whole = v if n_pairs == len(subsets) ** 2 else _ExactVerdict([r for A in subsets for B in subsets for r in values_on(e, A, B)], [])
         return verdicts[key]
+
+    def values_on(e, A, B):
+        """the rows (A, B, value) of `e` on one pair of name sets: one row when the expression reads the names only;
+        otherwise one per distinct value over the assignments of two values to the names that agree on the shared names"""
+        first = model.value(e, A, B)
+        if not model.touched:
+            return [(A, B, first)]
+        names = sorted(A | B)
+        seen, out = {first}, [(A, B, first)]
+        for k in range(1, 2 ** len(names)):
+            val = {n: 1 + ((k >> i) & 1) for i, n in enumerate(names)}
+            x = model.value(e, A, B, val, val)
+            if x not in seen:
+                seen.add(x)
+                out.append((A, B, x))
+        return out
 
     # (a) components by role, on EVERY return of a real score.  A component is
     #     either derived (def-use) from its documented source, or it is a
@@ -1412,7 +1467,7 @@ def r1_score_order(run):
                 else:
                     if v.unreadable:
                         raise UnknownIdiom('match_score: test %s guarding %s' % (short(v.unreadable[0].ast, 60), short(ret, 80)))
-                    family = 'sizes' if _sizes_only(ms, other, e) else 'other'
+                    family = 'sizes' if _sizes_only(ms, other, e) else ('inclusion' if _one_way_inclusion(v.whole) else 'other')
                     run.fail('score component 3 is the exact parameter-name match - one value when both parameter-name sets are equal, '
                              'a smaller one otherwise: %s' % EXACT_LOOKALIKES[family], ms, e2, where=ms.loc(e2),
                              witness=v.counterexample() + ['returned as component %d of %s' % (
@@ -1466,8 +1521,8 @@ def r1_score_order(run):
     def cmp_atom(kind):
         def is_side(e, base):
             if kind == 'params':
-                return (isinstance(e, ast.Subscript) and isinstance(e.value, ast.Attribute) and e.value.attr == 'params'
-                        and isinstance(e.value.value, ast.Name) and e.value.value.id == base)
+                # `X.params[name]`, or the same through a local bound once to the mapping (`mr_params = self.params`)
+                return isinstance(e, ast.Subscript) and _params_side(ms, e.value, other) == ('self' if base == 'self' else 'other')
             return isinstance(e, ast.Attribute) and e.attr == kind and isinstance(e.value, ast.Name) and e.value.id == base
 
         def atom(e):
@@ -3677,6 +3732,22 @@ def _strip_folds(e):
     return e
 
 
+def _peel_folds(e) -> Tuple[Set[str], ast.AST]:
+    """(case folds applied, what they are applied to) for a chain of `x.lower()` / `str.lower(x)` calls"""
+    folds: Set[str] = set()
+    e = _unwrap_cast(e)
+    while isinstance(e, ast.Call) and isinstance(e.func, ast.Attribute) and e.func.attr in CASE_FOLDS and not e.keywords:
+        if not e.args:
+            folds.add(e.func.attr)
+            e = _unwrap_cast(e.func.value)
+        elif len(e.args) == 1 and isinstance(e.func.value, ast.Name) and e.func.value.id == 'str':
+            folds.add(e.func.attr)
+            e = _unwrap_cast(e.args[0])
+        else:
+            break
+    return folds, e
+
+
 def _concat_pieces(e) -> Optional[list]:
     e = _unwrap_cast(e)
     if isinstance(e, ast.BinOp) and isinstance(e.op, ast.Add):
@@ -3877,6 +3948,9 @@ ANY_TYPE = '*/*'
 PARTIAL_TEXT_TESTS = ('startswith', 'endswith', 'find', 'rfind', 'index', 'rindex', 'count', '__contains__', 'split', 'rsplit',
                       'partition', 'rpartition', 'splitlines')
 PARTIAL_TEXT_MODULES = ('re', 'fnmatch')
+_R10_FOLD_WITNESS = "Accept: 'application/vnd.Acme.Order-v2+json' -> client_accepts('application/vnd.Acme.Order-v2+json') is False although " \
+                    "the type is listed verbatim; Accept: 'text/plain; format=Flowed' -> client_prefers(['text/plain; format=flowed']) " \
+                    'chooses a type whose parameter value differs'
 _R10_WITNESS = "Accept: 'text/csv;q=0, */*' -> client_accepts('text/csv') is True although the type is refused; Accept: '*/*;q=0' accepts " \
                'everything; client_accepts() disagrees with client_prefers() / quality() on the same header'
 
@@ -3900,6 +3974,19 @@ class _AcceptText:
         for n in sorted(self.whole):
             if len(_assignments(f.node, n)) != 1:
                 raise UnknownIdiom('%s: %s is bound to the Accept value and to something else' % (f.qual, n))
+        # locals that are the whole value UP TO LETTER CASE (`accept = self.accept.lower()`): name -> (folds, binding statement)
+        self.folded: Dict[str, Tuple[Set[str], ast.stmt]] = {}
+        changed = True
+        while changed:
+            changed = False
+            for n in walk_self(f.node):
+                if isinstance(n, ast.Assign) and len(n.targets) == 1 and isinstance(n.targets[0], ast.Name) \
+                        and n.targets[0].id not in self.whole and n.targets[0].id not in self.folded \
+                        and len(_assignments(f.node, n.targets[0].id)) == 1:
+                    fs = self.whole_modulo_case(n.value)
+                    if fs:
+                        self.folded[n.targets[0].id] = (fs, n)
+                        changed = True
         self.names: Set[str] = set(self.whole)
         changed = True
         while changed:
@@ -3926,6 +4013,23 @@ class _AcceptText:
     def is_whole(self, e) -> bool:
         e = _unwrap_cast(e)
         return self.is_attr(e) or (isinstance(e, ast.Name) and e.id in self.whole)
+
+    def whole_modulo_case(self, e) -> Optional[Set[str]]:
+        """the case folds (CASE_FOLDS) under which `e` is the whole Accept value: set() for the value itself, None when
+        `e` is something else"""
+        folds, e = _peel_folds(e)
+        if self.is_whole(e):
+            return folds
+        if isinstance(e, ast.Name) and e.id in self.folded:
+            return folds | self.folded[e.id][0]
+        return None
+
+    def fold_site(self, e):
+        """the construct that applies the fold: the binding of the folded local, else the expression itself"""
+        _, base = _peel_folds(e)
+        if isinstance(base, ast.Name) and base.id in self.folded and not _peel_folds(e)[0]:
+            return self.folded[base.id][1]
+        return e
 
     def derived(self, e) -> bool:
         return _text_derived(e, self.names, self.is_attr)
@@ -3978,6 +4082,56 @@ def _negotiated_answers(run, p, f: Func, name: str, neg_qual: str):
     def negotiated(e) -> bool:
         return any(is_neg(x) for x in ast.walk(e))
 
+    # the requested type(s) may be re-bound only to a case fold of themselves, by unconditional top-level statements that
+    # precede every negotiation call (`media_type = media_type.lower()`); anything else is not read
+    rebind_folds: Set[str] = set()
+    rebind_site = None
+    for st, v in _assignments(f.node, wanted):
+        top = [i for i, s2 in enumerate(f.node.body) if s2 is st]
+        rf, rinner = _peel_folds(v) if v is not None and isinstance(st, ast.Assign) else (set(), None)
+        before = top and not any(x is c2 for s3 in f.node.body[:top[0] + 1] for x in ast.walk(s3) for c2 in calls)
+        if not (before and rf and isinstance(rinner, ast.Name) and rinner.id == wanted):
+            raise UnknownIdiom('%s: the requested type is re-bound by %s' % (f.qual, short(st, 80)))
+        rebind_folds |= rf
+        rebind_site = st
+
+    def wanted_folds(e, depth=0):
+        """(case folds, construct applying them) when `e` is the requested type(s) up to letter case: the parameter, a
+        fold chain of it, `[t.lower() for t in types]` / `map(str.lower, types)` (optionally materialised), or a local
+        bound once to one of those; None otherwise"""
+        if depth > 6:
+            return None
+        x = _unwrap_cast(e)
+        folds, inner = _peel_folds(x)
+        if isinstance(inner, ast.Name):
+            if inner.id == wanted:
+                return (folds | rebind_folds, x if folds else (rebind_site if rebind_folds else x))
+            binds = _assignments(f.node, inner.id)
+            if len(binds) == 1 and isinstance(binds[0][0], ast.Assign) and binds[0][1] is not None:
+                r = wanted_folds(binds[0][1], depth + 1)
+                if r is not None:
+                    return folds | r[0], (x if folds else (binds[0][0] if r[0] else x))
+            return None
+        if folds:
+            return None
+        if isinstance(x, ast.Call) and isinstance(x.func, ast.Name) and x.func.id in ('list', 'tuple', 'iter') and len(x.args) == 1 \
+                and not x.keywords:
+            return wanted_folds(x.args[0], depth + 1)
+        if isinstance(x, ast.Call) and isinstance(x.func, ast.Name) and x.func.id == 'map' and len(x.args) == 2 and not x.keywords \
+                and isinstance(x.args[0], ast.Attribute) and isinstance(x.args[0].value, ast.Name) and x.args[0].value.id == 'str' \
+                and x.args[0].attr in CASE_FOLDS:
+            r = wanted_folds(x.args[1], depth + 1)
+            return None if r is None else (r[0] | {x.args[0].attr}, x)
+        if isinstance(x, (ast.ListComp, ast.GeneratorExp)) and len(x.generators) == 1 and not x.generators[0].ifs \
+                and isinstance(x.generators[0].target, ast.Name) and not x.generators[0].is_async:
+            ef, einner = _peel_folds(x.elt)
+            if isinstance(einner, ast.Name) and einner.id == x.generators[0].target.id:
+                r = wanted_folds(x.generators[0].iter, depth + 1)
+                return None if r is None else (r[0] | ef, x)
+        return None
+
+    call_folds: List[Set[str]] = []
+
     # --- the negotiation call is wired (requested type(s), whole Accept value)
     cparams = _param_names(callee)
     if len(cparams) != 2:
@@ -3992,15 +4146,37 @@ def _negotiated_answers(run, p, f: Func, name: str, neg_qual: str):
             raise UnknownIdiom('%s: arguments of %s' % (f.qual, short(c, 80)))
 
         def is_wanted(e):
-            e = _unwrap_cast(e)
-            return isinstance(e, ast.Name) and e.id == wanted and not _assignments(f.node, wanted)
+            return wanted_folds(e) is not None
 
-        straight = is_wanted(slots[0]) and A.is_whole(slots[1])
-        swapped = is_wanted(slots[1]) and A.is_whole(slots[0])
+        straight = is_wanted(slots[0]) and A.whole_modulo_case(slots[1]) is not None
+        swapped = is_wanted(slots[1]) and A.whole_modulo_case(slots[0]) is not None
         if not straight and not swapped:
             raise UnknownIdiom('%s: arguments of %s' % (f.qual, short(c, 80)))
         run.check(straight, '%s(): %s() receives the requested media type(s) and the whole Accept header value, in that order' % (
             name, callee.name), f, c, runtime_witness='the Accept header is parsed as a media type and the requested type as the header')
+        # both sides of the negotiation in ONE case form: match_score() compares types, subtypes and parameter VALUES
+        # case-sensitively, so a fold (CASE_FOLDS) of the header text only - or of the requested type(s) only - makes a
+        # type spelled the same on both sides a mismatch, and lets differently spelled parameter values match
+        w_e, a_e = (slots[0], slots[1]) if straight else (slots[1], slots[0])
+        w_folds, w_site = wanted_folds(w_e)
+        a_folds = A.whole_modulo_case(a_e)
+        call_folds.append(a_folds)
+        what = '%s(): the requested media type(s) and the Accept header value reach %s() in the same case form (case folds on the ' \
+               'header: %s; on the requested type(s): %s) - types, subtypes and parameter values are compared as they are spelled' % (
+                   name, callee.name, '/'.join(sorted(a_folds)) or 'none', '/'.join(sorted(w_folds)) or 'none')
+        if a_folds == w_folds:
+            if a_folds:
+                raise UnknownIdiom('%s: both sides of %s are case-folded (%s) - parameter values are case-sensitive; not decided' % (
+                    f.qual, short(c, 60), '/'.join(sorted(a_folds))))
+            run.ok(what, f.loc(c), c)
+        else:
+            if a_folds - w_folds:
+                site = A.fold_site(a_e)
+                run.fail(what, f, site, where=f.loc(site), witness=['%s applied to the Accept header text only, before %s' % (
+                    '/'.join(sorted(a_folds - w_folds)), short(c, 80))], runtime_witness=_R10_FOLD_WITNESS)
+            if w_folds - a_folds:
+                run.fail(what, f, w_site, where=f.loc(w_site), witness=['%s applied to the requested type(s) only, before %s' % (
+                    '/'.join(sorted(w_folds - a_folds)), short(c, 80))], runtime_witness=_R10_FOLD_WITNESS)
 
     # --- every value the method can hand out
     def leaves(e, stmt, conds, depth=0):
